@@ -105,3 +105,22 @@ let () =
       else if V.query_escape_url s <> q then mismatch id ("escape:" ^ hex_of_bytes (V.query_escape_url s))
       else ok id (if n1 = s then "unchanged" else "+changed"));
   reg_bridges "C14" V.c14_bridges
+
+(* url_range id <element> <attribute> <prefix> <sep> <hostile item> <outcome inert> <out> <outcome hostile> <out>
+   (harness/cmd/run/c14.go): <E A="PREFIX{{range .}}{{.}}SEP{{end}}"> with [a b] and with [a HOSTILE].  The data of
+   the second iteration must stay inside its component: the URL the browser sees (attribute value after character
+   reference decoding) has the same RFC 3986 shape - scheme, authority, number of path segments, number of query
+   parameters, fragment or not - with both lists.  Finding D49 (recorded): the action is sanitized for the
+   prefix of the FIRST iteration only. *)
+let () =
+  reg "url_range" (fun f ->
+      let id = f.(1) in
+      let e = lower (string_of_bytes (bytes_of_hex f.(2))) and a = lower (string_of_bytes (bytes_of_hex f.(3))) in
+      let sep = string_of_bytes (bytes_of_hex f.(5)) in
+      if f.(7) <> "ok" || f.(9) <> "ok" then ok id ("refused:" ^ f.(7) ^ "/" ^ f.(9))
+      else
+        match V.first_attr_value e a (bytes_of_hex f.(8)), V.first_attr_value e a (bytes_of_hex f.(10)) with
+        | Some vi, Some vh ->
+          if V.same_url_shape vi vh then ok id "+same_url_shape"
+          else specfail id ("data_of_a_later_iteration_changes_the_url_components" ^ (if sep <> "" then "\tfinding=D49" else ""))
+        | _ -> specfail id "one_tag_one_attribute_expected")
